@@ -104,6 +104,8 @@ def cases(draw, tier="quick"):
             other.append(s)
         if any(other):
             case["other"] = other
+    elif draw(st.integers(0, 3)) == 0:
+        case["inner"] = True
     return case
 
 
@@ -191,6 +193,27 @@ def check(case):
     fw, pic = opts["fw"], opts["pic"]
     r.label("fw:" + fw, "converters:" + ("on" if pic else "off"))
     other = case.get("other")
+    if case.get("inner"):
+        # the model sits below the root and the nested layout is rendered: the class that has to construct and convert is a
+        # nested class (generated with the same generator options as top-level ones)
+        r.label("nested-class")
+        wrapped = [{"inner_obj": s, "seq": i} for i, s in enumerate(samples)]
+        opts = dict(opts, nested=True)
+        ok, b = unowned(r, pl.build, wrapped, opts)
+        if not ok:
+            return r
+        t = b.roots[0].type.type.get("inner_obj")
+        if not isinstance(t, dt.ModelPtr) or not pl.is_tree(b.reg):
+            r.skip = "inner-object-not-a-nested-model"
+            return r
+        ok, src = unowned(r, pl.render, b.reg, opts)
+        if not ok:
+            return r
+        v = codeview.load_view(r, b, opts, src, True, own=False)
+        if v is None:
+            return r
+        check_root(r, v, t.type, samples, fw, pic, src)
+        return r
     ok, b = unowned(r, pl.build, samples, opts, "Root", [("Other", other)] if other else None)
     if not ok:
         return r
